@@ -99,12 +99,10 @@ theorem residuals_pinned : Gen.AsyncPairs.residuals = [
     ("liquid/builtin/expressions/loop.py:LoopExpression.evaluate", "8b3fde71b2427f4e"),
     ("liquid/builtin/loaders/file_system_loader.py:FileSystemLoader._uptodate", "ebc7130fabf60cf2"),
     ("liquid/builtin/loaders/file_system_loader.py:FileSystemLoader.get_source", "aa3f07ea79aca077"),
-    ("liquid/builtin/loaders/mixins.py:CachingLoaderMixin.load", "5bd7ceca77f62de5"),
     ("liquid/builtin/loaders/package_loader.py:PackageLoader.get_source", "b3954b7a14a10974"),
     ("liquid/builtin/tags/if_tag.py:IfNode.render_to_output", "e605b0a8933e92f9"),
     ("liquid/builtin/tags/include_tag.py:IncludeNode.children", "c278c8c7e67d68a9"),
     ("liquid/builtin/tags/render_tag.py:RenderNode.children", "eb81ac310b6825e9"),
-    ("liquid/context.py:RenderContext.get", "6bfe4db8572f28c6"),
     ("liquid/context.py:RenderContext.get_item", "e6d216406c62dd68"),
     ("liquid/environment.py:Environment.analyze_tags", "a359e5265ed53580"),
     ("liquid/expression.py:Expression.evaluate", "7bb2c1e787691154"),
@@ -112,7 +110,6 @@ theorem residuals_pinned : Gen.AsyncPairs.residuals = [
     ("liquid/extra/tags/extends_tag.py:ExtendsNode.children", "ce56e03fa8e832bb"),
     ("liquid/extra/tags/macro_tag.py:CallNode.render_to_output", "1bd8a2c9b65f8f97"),
     ("liquid/loader.py:BaseLoader.get_source", "30176babf38af53e"),
-    ("liquid/loader.py:BaseLoader.load", "9b773c92b0cdc82a"),
     ("liquid/template.py:BoundTemplate.is_up_to_date", "fa806394d9f2f00e")] := by decide
 
 /-- base-class defaults whose async half is `return self.f(…)` (shape kernel-checked in `Gen`) -/
@@ -127,8 +124,8 @@ theorem no_async_only : Gen.AsyncPairs.asyncOnly = [] := by decide
 from the same class (or the async half is the base-class delegating default) -/
 theorem mro_consistent : Gen.AsyncPairs.mroMismatches = [] := by decide
 
-/-- at least the 57 reviewed pairs are covered by a kernel-checked erase-equality obligation -/
-theorem erase_equal_count : 57 ≤ Gen.AsyncPairs.eraseEqualPairs.length := by decide
+/-- at least the 60 reviewed pairs are covered by a kernel-checked erase-equality obligation -/
+theorem erase_equal_count : 60 ≤ Gen.AsyncPairs.eraseEqualPairs.length := by decide
 
 /-! ## non-vacuity -/
 example : erase (.node "AsyncFunctionDef" [.ident "render_async", .await (.node "Call" [.ident "get_async"])])
